@@ -39,7 +39,7 @@ def intruders(tier):
     effs = (30, 180) if tier == "quick" else (30, 60, 180)
     for m in effs:
         for res in ("r1", "r2"):
-            for pos in ("first", "mid", "last"):
+            for pos in (("first", "last") if tier == "quick" else ("first", "mid", "last")):
                 for pin in (None, "2025-01-07-10:00"):
                     yield {"m": m, "res": res, "pos": pos, "pin": pin}
 
